@@ -27,7 +27,7 @@ def main(prop):
         if bad or k_reply or k_out: continue
         panicked = any(o.get("o") == "panic" for st in t["steps"] for o in st["out"])
         hit = ((mask >> bit) & 1) if prop != "C06" else panicked      # the monitor itself waives C06 in the class; the witness is the panic
-        if hit and kf & 1:
+        if hit and kf & kf_class(prop)[1]:
             if best is None or nsteps < best[2]:
                 best = (c, t, nsteps, first, mask)
     if not best:
@@ -35,9 +35,9 @@ def main(prop):
     c, t, nsteps, first, mask = best
     d = os.path.join(VERIF, "corpus", prop)
     os.makedirs(d, exist_ok=True)
-    json.dump({"property": prop, "class": "kf_read_error", "family": c["family"], "first_violation_step": first, "violated_mask": mask,
+    json.dump({"property": prop, "class": kf_class(prop)[0], "family": c["family"], "first_violation_step": first, "violated_mask": mask,
                "history": brief(t, (first or nsteps) + 2),
-               "case": {k: v for k, v in c.items() if not k.startswith("_") or k in ("_pool", "_script", "_probe")}}, open(os.path.join(d, "kf_read_error.json"), "w"), indent=1, sort_keys=True)
+               "case": {k: v for k, v in c.items() if not k.startswith("_") or k in ("_pool", "_script", "_probe")}}, open(os.path.join(d, kf_class(prop)[0] + ".json"), "w"), indent=1, sort_keys=True)
     print("witness:", c["family"], "steps", nsteps, "first violation at", first)
     print("\n".join(brief(t, (first or nsteps) + 1)[-6:]))
     return 0
